@@ -125,7 +125,7 @@ def finish(meta, src, name, keep):
         except Exception:  # noqa: BLE001
             pass
     for f in ("patch.diff", "demo.py", "notes.md"):
-        if (src / f).exists():
+        if (src / f).exists() and (src / f).resolve() != (out / f).resolve():
             shutil.copy(src / f, out / f)
     (out / "meta.json").write_text(json.dumps(meta, indent=1))
     print(json.dumps({k: meta.get(k) for k in ("tests_ok", "demo_ok", "caught_by", "caught_with_failing_input")}))
